@@ -1,23 +1,26 @@
 #!/bin/bash
-# Build the whole framework offline from files on disk: regenerate Generated.v from /repo,
+# Build the whole framework offline from files on disk: regenerate Generated.v from /repo's working tree,
 # compile every Coq file (full .vo build), extract the models and build the OCaml driver.
-set -e
+# Proof or translator failures caused by the state of /repo are NOT setup failures: every check rebuilds and
+# re-judges its own obligations; setup only fails when the tool chain itself is unusable.
 cd "$(dirname "$0")"
 export PYTHONPATH=${VERIF_REPO:-/repo}:$PWD/harness PYTHONHASHSEED=0 PYTHONDONTWRITEBYTECODE=1
-mkdir -p build evidence replays
+mkdir -p build evidence replays coq/Gen
+command -v coqc >/dev/null && command -v ocamlfind >/dev/null || { echo "coqc / ocamlfind missing"; exit 1; }
 /venv/bin/python - <<'PY'
 import sys
 from vh import core
 with core.BuildLock():
     ok, msg = core.regenerate()
     if not ok:
-        print('translator failed:', msg); sys.exit(1)
-    rc, out = core.make(None)
-    print(out[-2000:])
+        print('WARNING (left to the checks):', msg)
+    core.ensure_makefile()
+    rc, out = core.sh('timeout 3000 make -k -j%d' % core.NPROC, cwd=core.COQ, timeout=3100)
+    print(out[-1500:])
     if rc:
-        sys.exit(1)
+        print('WARNING: some Coq files did not compile (left to the checks)')
     ok, msg = core.build_model()
     if not ok:
-        print(msg); sys.exit(1)
+        print('WARNING: model driver not built (left to the checks):', msg[-500:])
 print('setup ok')
 PY
